@@ -669,7 +669,8 @@ impl<'a> UserModel<'a> {
         if let Ok(worksheet) = self.model.workbook.worksheet_mut(sheet) {
             if let Some(view) = worksheet.views.get_mut(&self.model.view_id) {
                 view.top_row = last_row;
-                view.row = view.top_row + row_delta;
+                // keep the selected cell inside the grid (the arrow keys do the same)
+                view.row = (view.top_row + row_delta).clamp(1, LAST_ROW);
                 view.range = [view.row, view.column, view.row, view.column];
             }
         }
@@ -704,7 +705,8 @@ impl<'a> UserModel<'a> {
         if let Ok(worksheet) = self.model.workbook.worksheet_mut(sheet) {
             if let Some(view) = worksheet.views.get_mut(&self.model.view_id) {
                 view.top_row = first_row;
-                view.row = view.top_row + row_delta;
+                // keep the selected cell inside the grid (the arrow keys do the same)
+                view.row = (view.top_row + row_delta).clamp(1, LAST_ROW);
                 view.range = [view.row, view.column, view.row, view.column];
             }
         }
